@@ -9,7 +9,7 @@ git -C /repo worktree remove --force "$WT" 2>/dev/null
 git -C /repo worktree add -q --detach "$WT" HEAD || exit 2
 cd "$WT" || exit 2
 DEMO=crates/$C/tests/demo_$(echo $N | tr 'A-Z-' 'a-z_').rs
-cp "$D/demo.rs" "$DEMO"
+mkdir -p "$(dirname "$DEMO")"; cp "$D/demo.rs" "$DEMO"
 T=$(basename "$DEMO" .rs)
 echo "--- $N: demo WITHOUT patch"
 cargo test -p $C --offline --test "$T" 2>&1 | grep -E "^test result|error(\[|:)" | head -3
